@@ -75,7 +75,7 @@ pub fn check(text: &str, ordering: &Option<Ordering>) -> Check {
     let limit = (1usize << std::cmp::min(idents.len(), 16)) + 2;
     guarded(&cj.clone(), || {
         let (r, pf) = match front::run_text(text.as_bytes(), to_symbols(ordering), Some(limit)) {
-            Run::ParseErr(e) => return Err(v(format!("well-formed formula rejected: {}", e))),
+            Run::ParseErr(e) => return Err(front::rejection(text, "well-formed formula", &e, &cj)),
             Run::ParsePanic(p) => return Err(v(format!("parser panicked: {}", p))),
             Run::EvalPanic(p, _) => return Err(v(format!("evaluation panicked: {}", p))),
             Run::Ok(r, pf) => (r, pf),
@@ -195,6 +195,7 @@ fn gen_ordering(t: &mut Tape, idents: &[String]) -> Option<Ordering> {
 pub fn run(ctx: &mut Ctx) -> Result<(), Violation> {
     ctx.rule = "cases = (reference-free formula text, optional ordering as NamedSymbol vector with distinct names and distinct, possibly non-contiguous ids: permutation / subset / superset with unused names). Generator biased to names occurring both bound and free, binders on absent names, nested binders on one name, binder-only names, repeated list entries (name pool of 2..5). \
                 Oracle: textbook FV on the reference tree. Checked: .vars == every identifier of the text exactly once, ids strictly increasing, names listed in the ordering carry exactly the caller's ids (how unlisted names are numbered is not prescribed by the property and not judged); .free_vars == the FV members of .vars in the same order; support(eval()) within FV by name, node ids as expected; to_free_index(v) == position in free_vars. \
+                Wide stage: conjunctions over 60..300 names (literals, small quantified / fixed-point clauses that bind names occurring free elsewhere, binder-only names), with and without a sparse ordering of the last names. \
                 Non-trivial = a name is both bound and free, or a binder-only / vacuous binder exists, or an ordering with an unused or permuted name is supplied; distinct by (text, ordering)."
         .to_string();
 
@@ -266,7 +267,69 @@ pub fn run(ctx: &mut Ctx) -> Result<(), Violation> {
         check(&text, &ord)
     });
     ctx.stage("random-formulas-and-orderings", false, r)?;
+
+    // wide texts: 65..300 names (beyond any machine-word bitmask), the oracle is purely syntactic and
+    // the diagrams stay linear (literals and small quantified clauses over neighbouring names)
+    let cases = ctx.tier.pick(600, 40_000);
+    let r = par_random(ctx, "wide", cases, 700, |tape, st| {
+        let mut t = Tape::new(tape);
+        let (text, n) = gen_wide_text(&mut t);
+        st.eval();
+        st.class(if n > 128 { "wide:more-than-128-names" } else if n > 64 { "wide:65..128-names" } else { "wide:up-to-64-names" });
+        let ord = if t.chance(60) {
+            // the last few names first, with sparse ids
+            let k = 1 + t.choose(5);
+            Some((0..k.min(n)).map(|j| (format!("w{}", n - 1 - j), 3 * j + 1)).collect::<Ordering>())
+        } else {
+            None
+        };
+        if st.nontrivial(fnv_str(&text)) && n <= 70 {
+            st.nt_sample(|| json!({"text": text, "ordering": ordering_json(&ord)}));
+        }
+        check(&text, &ord)
+    });
+    ctx.stage("wide-texts", false, r)?;
     Ok(())
+}
+
+/// conjunction over names w0..w(n-1): literals, and small quantified clauses that bind names which
+/// may also occur free elsewhere (so bound / free / both all occur at every position of the order)
+fn gen_wide_text(t: &mut Tape) -> (String, usize) {
+    const SIZES: [usize; 10] = [63, 64, 65, 66, 100, 127, 128, 129, 200, 300];
+    let n = if t.chance(150) { SIZES[t.choose(SIZES.len())] } else { 60 + t.choose(120) };
+    let w = |i: usize| format!("w{}", i);
+    let mut parts: Vec<String> = Vec::new();
+    let mut i = 0usize;
+    while i < n {
+        match t.choose(10) {
+            0 if i + 2 < n => {
+                // binds w(i+1); w(i) and w(i+2) stay free here
+                let kw = ["exists", "forall", "any", "all"][t.choose(4)];
+                parts.push(format!("({} {} # ({} | {} | -{}))", kw, w(i + 1), w(i), w(i + 1), w(i + 2)));
+                i += 3;
+            }
+            1 if i + 1 < n => {
+                // binder-only name w(i+1), vacuous
+                parts.push(format!("(exists {} # {})", w(i + 1), w(i)));
+                i += 2;
+            }
+            2 if i + 1 < n => {
+                // bound here, free again later in the text
+                parts.push(format!("(forall {} # ({} | {}))", w(i), w(i), w(i + 1)));
+                parts.push(if t.flag() { w(i) } else { format!("-{}", w(i)) });
+                i += 2;
+            }
+            3 if i + 1 < n => {
+                parts.push(format!("(lfp {} # ({} | {}))", w(i), w(i), w(i + 1)));
+                i += 2;
+            }
+            _ => {
+                parts.push(if t.flag() { w(i) } else { format!("-{}", w(i)) });
+                i += 1;
+            }
+        }
+    }
+    (parts.join(" & "), n)
 }
 
 pub fn replay(case: &Value) -> Check {
